@@ -200,17 +200,6 @@ pub(crate) fn c15_trace_flags_parse_total() {
     kani::cover!(true);
 }
 
-/// The version field: a header that is valid apart from its two version bytes (symbolic, ASCII) is accepted
-/// iff they are "00" (the Verus unit restates this literal because Verus cannot take the byte-string pattern).
-#[cfg_attr(kani, kani::proof)]
-#[cfg_attr(kani, kani::unwind(57))]
-pub(crate) fn c15_traceparent_version_field() {
-    let mut buf: [u8; 55] = *b"00-4bf92f3577b34da6a3ce929d0e0e4736-00f067aa0ba902b7-01";
-    let (a, b): (u8, u8) = (kani::any(), kani::any());
-    kani::assume(a < 128 && b < 128);
-    buf[0] = a;
-    buf[1] = b;
-    let s = core::str::from_utf8(&buf).unwrap();
-    assert!(Traceparent::try_from_str(s).is_ok() == (a == b'0' && b == b'0'));
-    kani::cover!(true);
-}
+// NOTE: a harness with only the two version bytes of an otherwise fixed valid header symbolic was tried for the
+// `let b"00" = version else` check (which the Verus unit traceparent_parse has to restate): CBMC does not finish
+// in 15 minutes (the error paths build Strings with format!). The version literal is covered by tools/lints.py.
